@@ -14,6 +14,8 @@ MANIFEST_ENTRY = {
     "note": "The web layer itself (web/directory.py, web/filenode.py: which handler is chosen for which t= parameter, their own early is_readonly checks, the private-area token) is not under contract; the claim is that whatever handler runs cannot change the grid through a read-only node, and can learn a write cap only from get_write_uri(). Arguments of the mutators are opaque stubs.",
     "technique": "contract-based deductive verification (pyvc VCs + z3); mutator set extracted from the AST; Deferred-chain model",
 }
+MANIFEST_ENTRY["text"] += " Bounded end-to-end stand-in (run-time contract, never counted as proved): contracts/grid_web.py renders the real web resources (URIHandler, directory and file handlers) in memory over the real in-process grid, sends every mutating request form through read caps (must be refused, share files byte-identical afterwards), and searches every response obtained through a read cap for the write caps of the tree."
+MANIFEST_ENTRY["technique"] += "; plus bounded end-to-end run-time scenario contracts on an in-process grid of the real components (stand-in, labelled bounded)"
 EXPLANATION = "Read-only refusal as a frame condition on every mutator."
 TRUSTED = ["web renderers obtain write caps only via get_write_uri() (checked by grep in the contract, not proved)"]
 ASSUMPTIONS = []
@@ -251,6 +253,11 @@ class WriteUri(Spec):
 
     def canary(self, I, a, out):
         return [("canary", z3.BoolVal(out.value is not None))]
+
+
+def extra_checks(rep, tier):
+    from contracts import grid_web
+    grid_web.grid_check(rep, tier, "C41")
 
 
 def contracts(tier):
